@@ -126,7 +126,9 @@ def run_c08(pid):
                 frames = 40
                 jobs.append({"fe": fe, "rate": 44100, "bps": bps, "channels": ch, "opts": {"block_size": 16, "seektable": {"frames": 2}},
                              "pcm": pcm_spec("walk", 100 + ch * 7 + bps, frames), "writes": c["writes"],
-                             "pcm_id": ch * 100 + bps, "opts_id": 1, "tag": "gen"})
+                             "pcm_id": ch * 100 + bps, "opts_id": 1, "tag": "gen",
+                             # every other stereo 16-bit run goes through the CD-DA convenience constructor: same group, same bytes
+                             "cdda": ch == 2 and bps == 16 and len(jobs) % 2 == 1})
     # ---- every single split point, inputs of 2.5 blocks, all front ends
     rnd = random.Random(seed() * 31 + 8)
     for (ch, bps, frames) in ((1, 16, 40), (2, 16, 40), (2, 24, 33)) + (((4, 8, 47), (8, 32, 35), (1, 12, 48)) if t == "thorough" else ()):
